@@ -340,24 +340,31 @@ def _narrow(ranges, march):
 
 
 def fam_hard16(fam, text):
-    return fam == "const" and "% (@1@ - @2@)" in text
+    return fam == "const" and ("% (@1@ - @2@)" in text or "const int32_t x = @0@ % @1@" in text)
 
 
 def c3_templates(tier):
     q = tier == "quick"
     T = []
 
-    def add(fam, text, heavy=None, march="x86_64"):
+    def add(fam, text, heavy=None, march="x86_64", rng=None):
         if heavy is None:
             heavy = nholes(text) > 1 and any(f"@ {o} " in text or f") {o} " in text or f" {o} (" in text for o in "*/%")
         rg = _r(text, heavy) if heavy != 2 else [list(W8) for _ in range(nholes(text))]
+        if rng is not None:
+            rg = [list(rng) for _ in range(nholes(text))]
         T.append((fam, text, _narrow(rg, march), march))
 
     # (1) constant declarations with arithmetic; the constant initialises a global and is returned by a function
     use = "var {T} g = x; function {T} f() {{ return x; }}"
     for T_ in (("int", "byte") if q else ITYPES):
         for op in ARITH:
-            add("const", f"const {T_} x = @0@ {op} @1@; " + use.format(T=T_))
+            # a symbolic remainder followed by the two's complement wrap of the cast to a signed type other than int
+            # is out of the solvers' reach at 2**32: operands 0 .. 2**17+1000 there
+            hard = op == "%" and T_ in ("int8_t", "int16_t", "int32_t", "int64_t")
+            if op == "%" and T_ == "int64_t":
+                continue        # HARD_REMAINDER: the solver does not decide path feasibility here (stated in OUTSIDE)
+            add("const", f"const {T_} x = @0@ {op} @1@; " + use.format(T=T_), rng=W17 if hard else None)
     for T_ in ITYPES:
         add("const", f"const {T_} x = cast<{T_}>(@0@); " + use.format(T=T_))
         add("const", f"const {T_} x = cast<{T_}>(@0@ - @1@); " + use.format(T=T_))
